@@ -3,6 +3,7 @@ package main
 // Type-based modifies inference over the module's SSA.
 
 import (
+	"os"
 	"fmt"
 	"go/token"
 	"go/types"
@@ -113,6 +114,7 @@ func (m *modSet) union(o *modSet) {
 		m.descs[k] = d
 	}
 	if o.all {
+		modWhy("mods.go:116")
 		m.all = true
 	}
 	if o.allocs {
@@ -127,6 +129,7 @@ func (m *modSet) register(c *Ctx) *modSet {
 		// A very large inferred frame is not materialised key by key (that would blow up the VC): the caller
 		// havocs everything except the keys it already knows that are outside the frame (see havocBig).
 		m.big = true
+		modWhy("mods.go:130")
 		m.all = true
 		return m
 	}
@@ -190,6 +193,7 @@ func storeTargets(m *modSet, addr ssa.Value, cellOK func(*ssa.Alloc) bool) {
 				v = x.X
 				continue
 			}
+			modWhy("mods.go:193")
 			m.all = true
 			return
 		case *ssa.Global:
@@ -198,6 +202,7 @@ func storeTargets(m *modSet, addr ssa.Value, cellOK func(*ssa.Alloc) bool) {
 		default:
 			pt, ok := v.Type().Underlying().(*types.Pointer)
 			if !ok {
+				modWhy("mods.go:201")
 				m.all = true
 				return
 			}
@@ -332,6 +337,7 @@ func (w *World) callMods(c *Ctx, m *modSet, cc *ssa.CallCommon, ex *Exec, depth 
 		return
 	}
 	if callee == nil {
+		modWhy("mods.go:335")
 		m.all = true
 		return
 	}
@@ -344,8 +350,39 @@ func (w *World) callMods(c *Ctx, m *modSet, cc *ssa.CallCommon, ex *Exec, depth 
 	}
 	if isPureExternal(callee) || isLogFunc(callee) {
 		if isPureExternal(callee) && hasCallbackArg(callee, nil) {
-			// the library function runs the function value it is given
-			m.all = true
+			// the library function runs the function value it is given: when every function-typed argument is a
+			// statically known function (closure literal, named function) the effect is what that function may
+			// modify (any number of times); otherwise everything
+			for _, a := range cc.Args {
+				if _, isFn := a.Type().Underlying().(*types.Signature); !isFn {
+					continue
+				}
+				var fn *ssa.Function
+				for {
+					ct, ok := a.(*ssa.ChangeType)
+					if !ok {
+						break
+					}
+					a = ct.X // func literal converted to a named function type (fs.WalkDirFunc)
+				}
+				switch v := a.(type) {
+				case *ssa.MakeClosure:
+					fn, _ = v.Fn.(*ssa.Function)
+				case *ssa.Function:
+					fn = v
+				}
+				if fn != nil && len(fn.Blocks) == 0 {
+					if rp := rootParent(fn); rp.Pkg != nil && strings.HasPrefix(funcPkgPath(fn), modulePath) {
+						rp.Pkg.Build() // SSA of in-module dependencies is built on demand
+					}
+				}
+				if fn == nil || len(fn.Blocks) == 0 {
+					modWhy(fmt.Sprintf("mods.go:362 callee=%s arg=%T %v", callee, a, a))
+					m.all = true
+					return
+				}
+				m.union(w.modOfRec(fn, depth+1, stack))
+			}
 		}
 		return
 	}
@@ -382,6 +419,7 @@ func (w *World) contractMods(m *modSet, ct *Contract, args []ssa.Value, callee *
 		for _, mod := range ct.Modifies {
 			switch {
 			case mod == "heap" || mod == "all":
+				modWhy("mods.go:403")
 				m.all = true
 			case mod == "alloc":
 			default:
@@ -395,6 +433,7 @@ func (w *World) contractMods(m *modSet, ct *Contract, args []ssa.Value, callee *
 				shallowArgMods(m, a.Type())
 			}
 			if callee != nil && callee.Signature.Recv() == nil && len(args) == 0 {
+				modWhy("mods.go:416")
 				m.all = true
 			}
 		}
@@ -402,6 +441,7 @@ func (w *World) contractMods(m *modSet, ct *Contract, args []ssa.Value, callee *
 		switch ct.Havoc {
 		case "none":
 		case "all":
+			modWhy("mods.go:423")
 			m.all = true
 		default:
 			externalArgMods(m, args)
@@ -464,6 +504,7 @@ func externalArgMods(m *modSet, args []ssa.Value) {
 		case *types.Array:
 			visit(u.Elem(), depth+1)
 		case *types.Interface, *types.Signature:
+			modWhy("mods.go:485")
 			m.all = true
 		}
 	}
@@ -489,6 +530,7 @@ func (w *World) modOfRec(fn *ssa.Function, depth int, stack map[*ssa.Function]bo
 		return m // recursion: the fixpoint is reached by the outer frame (approximation: union of one unfolding)
 	}
 	if depth > 12 {
+		modWhy("mods.go:510")
 		m.all = true
 		return m
 	}
@@ -570,3 +612,10 @@ func (w *World) implementations(recvType types.Type, m *types.Func) []*ssa.Funct
 }
 
 var _ = token.NoPos
+
+
+func modWhy(where string) {
+	if os.Getenv("GOVC_MODWHY") != "" {
+		fmt.Fprintln(os.Stderr, "frame=everything at", where)
+	}
+}
